@@ -146,7 +146,11 @@ def run(ck):
             else:
                 ck.discharged += 1
     ck.rule('C10.R3 header calls of the emitters', nh, 20)
-    ck.assumptions += ['the induction "a walker sees every packet exactly once, in order" follows on paper from R1 (consumed = own length) and C06.R2 (reported length = bytes written)',
+    # ---- R6 a packet laid in a frame carries its own length: the 12-bit GSE length handed to the header encoder is not
+    # truncated and the length reported to the caller is that length + 2 = the bytes written (the C06 rules, on the same analyses)
+    from rules import c06
+    c06.run(ck, pid_rules='C10.R6')
+    ck.assumptions += ['the induction "a walker sees every packet exactly once, in order" follows on paper from R1 (consumed = own length) and R6 (reported length = length on the wire = bytes written)',
                        'single byte reads buffer[2] (fragment id) are covered by the panic obligations of C05 only']
     return ck.finish(
         level='other',
